@@ -40,7 +40,8 @@ def call_parser(integ, parser, strict, data):
 
 
 def names(rnd):
-    base = ["", "t", "n" * 7, "stream 名前 \U0001F600", "x" * 300, "é", "a\nb\t\"c\"\\"]
+    base = ["", "t", "n" * 7, "stream 名前 \U0001F600", "x" * 300, " padded ", "trailing\n", "\t", "\u00a0nbsp\u00a0", "é", "a\nb\t\"c\"\\",
+            "x" * 127, "x" * 128, "nul\x00inside"]
     return base
 
 
@@ -89,8 +90,8 @@ def main(tier: str) -> int:
     # ---- write side: what the writer accepts and what it writes into the header; what pyjelly's reader is told
     from pyjelly.parse.ioutils import get_options_and_frames  # noqa: PLC0415
 
-    presets = [(8, 0, 0), (8, 1, 1), (4096, 4096, 4096)] + ([] if quick else [(4000, 150, 32), (9, 4096, 0), (128, 0, 32)])
-    name_pool = names(rnd) if not quick else names(rnd)[:5]
+    presets = [(8, 0, 0), (8, 1, 1), (4096, 4096, 4096), (255, 256, 4095)] + ([] if quick else [(4000, 150, 32), (9, 4096, 0), (128, 0, 32)])
+    name_pool = names(rnd) if not quick else names(rnd)[:9]
     written = 0
     st = (("iri", "http://e/s"), ("iri", "http://e/p"), ("lit", "v", "", ""))
     for sclass, lt, delimited, nsdecl in itertools.product(("triple", "quad", "graph"), (0, 1, 2, 3, 4, 13, 14, 114), (True, False), (True, False)):
@@ -98,8 +99,10 @@ def main(tier: str) -> int:
             for gen, star in itertools.product((False, True), repeat=2):
                 name = name_pool[written % len(name_pool)]
                 written += 1
-                cfg = impl.default_cfg(integ="generic", entry="stream_frames", sclass=sclass, ltype=lt, delimited=delimited, preset=preset,
-                                       gen=gen, star=star, nsdecl=nsdecl, name=name, frame_size=250)
+                # the version the caller passes must not matter: it is 2 exactly when declarations are enabled
+                version = (None, 1, 2)[written % 3]
+                cfg = impl.default_cfg(integ=("generic", "rdflib")[written % 2] if not star and not gen else "generic", entry="stream_frames", sclass=sclass, ltype=lt,
+                                       delimited=delimited, preset=preset, gen=gen, star=star, nsdecl=nsdecl, name=name, frame_size=250, version=version)
                 key = {"side": "write", "sclass": sclass, "ltype": impl.LT_NAMES[lt], "delimited": delimited}
                 rp = {"cfg": cfg}
                 stmt = st if sclass == "triple" else st + (("dg",),)
